@@ -75,6 +75,7 @@ func init() {
 			pf := newPatchFamily(w, v2, "v2")
 			safely(r, "ruleFWD", func() { ruleFWD(w, r, pf, []string{"pathAhead", "oldValues", "newValues", "strategy"}) })
 			ruleOptFwd(w, r, v2, "v2", "Option", func(fn *ssa.Function) bool { return patchSide(fn) || equalsSide(fn) || diffSide(fn) }, nil)
+			safely(r, "ruleCursor", func() { ruleCursor(w, r, v2, "v2") })
 			safely(r, "rulePathFresh", func() { rulePathFresh(w, r, v2, "v2") })
 			safely(r, "ruleKinds", func() { ruleKinds(w, r, v2) })
 			safely(r, "ruleProv", func() { ruleProv(w, r, v2, "v2", v2Prov) })
@@ -319,6 +320,7 @@ func init() {
 		Assumptions: commonAssumptions,
 		Run: func(w *World, r *Report) {
 			v2 := w.Pkg(pathV2)
+			safely(r, "ruleCursor", func() { ruleCursor(w, r, v2, "v2") })
 			safely(r, "ruleNoEmpty", func() { ruleNoEmpty(w, r, v2, "v2", "Remove", "Add") })
 			safely(r, "ruleOptFwd", func() { ruleOptFwd(w, r, v2, "v2", "Option", diffSide, nil) })
 			safely(r, "ruleSetMember", func() { ruleSetMember(w, r, v2, "v2", "Remove", "Add") })
@@ -498,6 +500,7 @@ func init() {
 		Run: func(w *World, r *Report) {
 			v2 := w.Pkg(pathV2)
 			safely(r, "ruleListDiff", func() { ruleListDiff(w, r, v2) })
+			safely(r, "ruleCursor", func() { ruleCursor(w, r, v2, "v2") })
 			{
 				// the LCS runs over element digests: digests that collide across types or ignore part of a value shorten or lengthen the script
 				nt := newNodeTypes(w, v2, "v2")
